@@ -27,7 +27,7 @@ for d in sorted(glob.glob('/verif/seeded/C*-*')):
             "demo_fails_with_change": not log_ok('demo_with.log'),
             "suite_passes_with_change": log_ok('suite_with.log'),
         },
-        "round": {"A": 1, "B": 1, "C": 2, "D": 2, "E": 3, "F": 3}.get(name.split('-')[1], 0),
+        "round": {"A": 1, "B": 1, "C": 2, "D": 2, "E": 3, "F": 3, "G": 4, "H": 4, "I": 5, "J": 5, "K": 6, "L": 6}.get(name.split('-')[1], 0),
         "files": {"patch": "patch.diff", "demonstration": "demo_test.go", "agent_notes": "NOTES.md", "logs": ["demo_without.log", "demo_with.log", "build.log", "suite_with.log"]},
         "how_to_run_a_check_against_it": "bin/run_seed.sh %s <check id> [quick|thorough]  (git -C /repo apply patch.diff; bin/vcheck ...; git -C /repo checkout -- .)" % name,
         "checks_run": res.get(name, []),
